@@ -68,6 +68,7 @@ def recursiveByReading : List ((String × String) × String) := [
   (("sharepoint2text/parsing/extractors/mail/mbox_email_extractor.py", "_iter_message_parts"), "structural: recurses into the sub-parts of a parsed multipart message (attachments are not descended into)"),
   (("sharepoint2text/parsing/extractors/mail/msg_email_extractor.py", "_parse_multi_recipients"), "structural: recurses into the items of a list argument (strings do not recurse)"),
   (("sharepoint2text/parsing/extractors/ms_modern/docx_extractor.py", "_process_text_element"), "structural: recurses into the children of an XML element"),
+  (("sharepoint2text/parsing/extractors/ms_modern/docx_extractor.py", "_unwrap_block_children"), "structural: recurses into the w:sdtContent / w:customXml children of an XML element (finite parsed tree; modelled in C02: Model/OoxmlDocx.lean blockTexts / sdtBlocks)"),
   (("sharepoint2text/parsing/extractors/open_office/_shared.py", "_append_element_text"), "structural: recurses into the children of an XML element"),
   (("sharepoint2text/parsing/extractors/open_office/odf_extractor.py", "_mathml_to_text"), "structural: recurses into the children of a MathML element"),
   (("sharepoint2text/parsing/extractors/open_office/odt_extractor.py", "_iter_own_rows"), "structural: recurses into the children of an ODF table element (finite parsed tree; modelled and proved in C13)"),
